@@ -29,6 +29,7 @@ CONV_TOL = (1e-4, 1e-12)
 CONSTR = {"quick": (("0", "path"), ("0.1", "path"), ("0.1", "zeros"), ("1.5", "path")),
           "thorough": (("0", "path"), ("0.1", "path"), ("0.1", "zeros"), ("1.5", "path"), ("0", "zeros"))}
 ALPHA = {"quick": (0.01, 1.0), "thorough": (0.01, 1.0, 10.0)}
+UNIT_SCALE = 2.0 ** -40       # ~9.1e-13: geometry matrix and measurements in other units
 TIKHONOV = ("identity(None)", "second-difference(singular)", "first-cell-only(diag(1,0,..), singular)", "forward-difference(non-symmetric, L^T L != L L^T)")
 # reduced parameter product used only for the 3x3 matrices of the thorough tier
 REDUCED = {"x0": ("none", "array"), "relax": (0.5, 1.0), "stops": ((1, 1e-4), (3, 1e-4), (7, 1e-4), (12, 1e-12)),
@@ -70,7 +71,7 @@ ASSUMPTIONS = [
     "'lstsq:residual-not-reported', not as a violation (nothing is reported that could be inconsistent)",
 ]
 REQUIRED_CLASSES = [
-    "sart:W=0", "sart:zero-col", "sart:zero-row", "sart:rank-deficient", "sart:full-rank", "sart:underdetermined",
+    "sart:weights-in-other-units", "sart:W=0", "sart:zero-col", "sart:zero-row", "sart:rank-deficient", "sart:full-rank", "sart:underdetermined",
     "sart:overdetermined", "sart:b=0", "sart:clip-active", "sart:stopped-early", "sart:ran-to-max", "sart:x0=none",
     "sart:x0=zero", "sart:x0=one", "sart:x0=array", "sart:fixed-point", "sart:fixed-point:laplacian-active",
     "csart:beta>0:L=path", "csart:beta=0", "csart:L=zeros", "csart:penalty-changes-iterate",
@@ -312,6 +313,25 @@ def _run_sart(case):
                             NIT[bi, si] = nit
                         except Exception as e:  # noqa
                             exc[(bi, si)] = e
+                            continue
+                        if si == ns - 1 and not bzero[bi]:
+                            # the update rule and the stopping rule are invariant under a common factor on W and b (weights in other units);
+                            # the factor is a power of two, so every intermediate is scaled exactly and the result must be the same
+                            ig2 = x0.copy() if x0k == "array" else ig_const
+                            try:
+                                if site == "sart":
+                                    x2, conv2 = fn(W * UNIT_SCALE, bvec * UNIT_SCALE, initial_guess=ig2, max_iterations=mi, relaxation=relax, conv_tol=tol)
+                                else:
+                                    x2, conv2 = fn(W * UNIT_SCALE, L, bvec * UNIT_SCALE, initial_guess=ig2, max_iterations=mi, relaxation=relax,
+                                                   beta_laplace=beta, conv_tol=tol)
+                                _bump(cl, "sart:weights-in-other-units")
+                                if len(conv2) != nit or not np.allclose(np.asarray(x2, dtype=float), np.asarray(x, dtype=float), rtol=1e-12, atol=1e-300):
+                                    _V(viol, "%s:weights-in-other-units:result-differs" % sname,
+                                       "%s with W and b multiplied by 2^-40 (W=%s, b=%s, initial_guess=%s, max_iterations=%d, relaxation=%g)" % (sname, Wl, list(bs[bi]), x0k, mi, relax),
+                                       {"x": np.asarray(x, dtype=float), "iterations": nit}, {"x": np.asarray(x2, dtype=float), "iterations": len(conv2)})
+                            except Exception as e:  # noqa
+                                _V(viol, "%s:weights-in-other-units:raises:%s" % (sname, type(e).__name__), "%s with W and b multiplied by 2^-40" % sname, "a solution", repr(e)[:200])
+                            ncalls += 1
                 ncalls += nb * ns
 
                 # ---- compare with the reference trajectory (vectorised over b and stop settings)
